@@ -158,6 +158,7 @@ fn run_reads_x(out: &mut TraceOut, src: &[u8], frag: usize, intr: Vec<usize>, er
     let mut n = 1;
     for _ in 0..max {
         out.emit(json!({"e": "rcall"}));
+        let pos_before = rd.pos;
         let r = catch(|| Frame::read(&mut rd).map(|f| j::frame_from(&j::frame(&f))));
         for ev in rd.log.drain(..) {
             out.emit(ev);
@@ -165,7 +166,10 @@ fn run_reads_x(out: &mut TraceOut, src: &[u8], frag: usize, intr: Vec<usize>, er
         }
         let res = frame_result(&r);
         let io = res["kind"] == "io" || res["kind"] == "panic";
-        out.emit(json!({"e": "rret", "res": res, "left": rd.src.len() - rd.pos}));
+        // what the reader consumed, and what the library's own decoder says about exactly those bytes
+        let line = rd.src[pos_before..rd.pos].to_vec();
+        let direct = frame_result(&catch(|| Frame::from_bytes(&line).map(|f| j::frame_from(&j::frame(&f)))));
+        out.emit(json!({"e": "rret", "res": res, "left": rd.src.len() - rd.pos, "line": j::bytes(&line), "direct": direct}));
         n += 2;
         if io || rd.pos >= rd.src.len() {
             break;
@@ -176,7 +180,8 @@ fn run_reads_x(out: &mut TraceOut, src: &[u8], frag: usize, intr: Vec<usize>, er
 
 fn run_write(out: &mut TraceOut, f: &Frame<'static>, limit: usize, intr: Vec<usize>, zero: Option<usize>, err: Option<usize>) -> usize {
     let mut w = SchedWriter { limit, intr, zero, err, calls: 0, log: vec![], kind: err.unwrap_or(0) + limit };
-    out.emit(json!({"e": "wstart", "frame": j::frame(f)}));
+    let want = catch(|| f.to_bytes_with_newline()).unwrap_or_default();
+    out.emit(json!({"e": "wstart", "frame": j::frame(f), "want": j::bytes(&want)}));
     let r = catch(|| f.write(&mut w));
     let mut n = 2;
     for ev in w.log.drain(..) {
@@ -197,10 +202,23 @@ pub fn record_c15(a: &Args) -> usize {
     let thorough = a.tier == "thorough";
     let mut rng = StdRng::seed_from_u64(a.seed ^ 0xC15);
     let mut out = TraceOut::new(&a.out, "C15", a.shards);
-    let f1 = j::mk_frame(1, 2, &[]);
-    let f2 = j::mk_frame(0xFFFF, 4, &[0x0F]);
-    let f3 = j::mk_frame(3, 0, &[10, 13]);
+    let f1 = Enc(1, 2, vec![]);
+    let f2 = Enc(0xFFFF, 4, vec![0x0F]);
+    let f3 = Enc(3, 0, vec![10, 13]);
+    let wf1 = j::mk_frame(1, 2, &[]);
+    let wf2 = j::mk_frame(0xFFFF, 4, &[0x0F]);
+    let wf3 = j::mk_frame(3, 0, &[10, 13]);
     let cat = |parts: &[&[u8]]| -> Vec<u8> { parts.iter().flat_map(|p| p.iter().copied()).collect() };
+    // stream contents come from the harness's own hex encoder: C15 is about the stream handling, not the codec
+    struct Enc(u16, u8, Vec<u8>);
+    impl Enc {
+        fn to_bytes(&self) -> Vec<u8> {
+            crate::codec::seed_encoding(self.0, self.1, &self.2, false)
+        }
+        fn to_bytes_with_newline(&self) -> Vec<u8> {
+            crate::codec::seed_encoding(self.0, self.1, &self.2, true)
+        }
+    }
     let streams: Vec<Vec<u8>> = vec![
         cat(&[&f1.to_bytes_with_newline()]),
         cat(&[&f1.to_bytes_with_newline(), b":0"]),
@@ -237,7 +255,7 @@ pub fn record_c15(a: &Args) -> usize {
     }
     // interrupt storms: very many interrupted reads within one frame read (they must stay invisible however often they occur)
     {
-        let big = j::mk_frame(0xABCD, 0x11, &(0..255).map(|x| (x * 3) as u8).collect::<Vec<u8>>()).to_bytes_with_newline();
+        let big = Enc(0xABCD, 0x11, (0..255).map(|x| (x * 3) as u8).collect::<Vec<u8>>()).to_bytes_with_newline();
         let small = cat(&[&f2.to_bytes_with_newline(), &f1.to_bytes_with_newline(), b"zz"]);
         let mut two = big.clone();
         two.extend_from_slice(&f1.to_bytes_with_newline());
@@ -267,7 +285,7 @@ pub fn record_c15(a: &Args) -> usize {
         for _ in 0..nf {
             let len = if rng.gen_bool(0.1) { rng.gen_range(200..=255) } else { rng.gen_range(0..20) };
             let d: Vec<u8> = (0..len).map(|_| rng.r#gen()).collect();
-            let f = j::mk_frame(rng.r#gen(), rng.r#gen(), &d);
+            let f = Enc(rng.r#gen(), rng.r#gen(), d);
             match rng.gen_range(0..10) {
                 0 => {
                     src.extend_from_slice(&f.to_bytes());
@@ -295,7 +313,7 @@ pub fn record_c15(a: &Args) -> usize {
         n += run_reads(&mut out, &src, frag, intr, err, 30);
     }
     // writing: every frame below x sink limit x interrupt / zero / hard error at every call
-    let mut frames = vec![f1.clone(), f2.clone(), f3.clone(), j::mk_frame(0x1234, 0, &(0..16).collect::<Vec<u8>>())];
+    let mut frames = vec![wf1, wf2, wf3, j::mk_frame(0x1234, 0, &(0..16).collect::<Vec<u8>>())];
     if thorough {
         frames.push(j::mk_frame(0xABCD, 0xEE, &(0..255).map(|x| x as u8).collect::<Vec<u8>>()));
     }
@@ -714,6 +732,23 @@ fn reply_tapes(rng: &mut StdRng, own: u16) -> Vec<Vec<u8>> {
     tapes
 }
 
+fn own_wire(m: &Message<'static>) -> Value {
+    j::bytes(&catch(|| Frame::from(m.clone()).to_bytes_with_newline()).unwrap_or_default())
+}
+
+/// The first line of `tape` (up to and including the first LF, or everything) and the library's own decoding of it as a reply.
+fn direct_reply(tape: &[u8]) -> (Value, Value) {
+    let end = tape.iter().position(|&b| b == b'\n').map(|i| i + 1).unwrap_or(tape.len());
+    let line = &tape[..end];
+    let r = catch(|| Frame::from_bytes(line).map(|f| j::msg(&Message::from(f))));
+    let direct = match r {
+        Ok(Ok(m)) => m,
+        Ok(Err(_)) => json!({"k": "Err", "a": 0, "s": "", "t": 0, "d": []}),
+        Err(_) => json!({"k": "Panic", "a": 0, "s": "", "t": 0, "d": []}),
+    };
+    (j::bytes(line), direct)
+}
+
 fn pm_result(r: &Result<Result<Option<Message<'static>>, String>, String>) -> Value {
     match r {
         Ok(Ok(m)) => j::reply(m),
@@ -739,7 +774,7 @@ fn run_pm(out: &mut TraceOut, m: &Message<'static>, tape: &[u8], io_fail_at: Opt
         s.tx.clear();
         s.t0 = Instant::now();
     }
-    out.emit(json!({"e": "pm", "m": j::msg(m), "rx": j::bytes(tape), "fail_at": io_fail_at.map(|x| x as i64).unwrap_or(-1)}));
+    out.emit(json!({"e": "pm", "m": j::msg(m), "rx": j::bytes(tape), "wire": own_wire(m), "fail_at": io_fail_at.map(|x| x as i64).unwrap_or(-1)}));
     let r = catch(|| bus.process_message(m.clone()).map(|o| o.map(|x| j::msg_from(&j::msg(&x)))).map_err(|e| e.to_string()));
     let t_ret = st.borrow().now();
     let s = st.borrow();
@@ -752,7 +787,8 @@ fn run_pm(out: &mut TraceOut, m: &Message<'static>, tape: &[u8], io_fail_at: Opt
         }
         out.emit(e);
     }
-    let mut ret = json!({"e": "pmret", "res": pm_result(&r), "txd": j::bytes(&s.tx), "rxleft": s.rx.len()});
+    let (line, direct) = direct_reply(tape);
+    let mut ret = json!({"e": "pmret", "res": pm_result(&r), "txd": j::bytes(&s.tx), "rxleft": s.rx.len(), "line": line, "direct": direct});
     if timed {
         ret["t"] = json!(t_ret);
     }
@@ -781,7 +817,7 @@ fn run_session(out: &mut TraceOut, msgs: &[Message<'static>], pattern: &[u8], ta
             s.io_log.clear();
             s.tx.clear();
         }
-        out.emit(json!({"e": "pm", "m": j::msg(m), "rx": j::bytes(tape), "fail_at": fault}));
+        out.emit(json!({"e": "pm", "m": j::msg(m), "rx": j::bytes(tape), "wire": own_wire(m), "fail_at": fault}));
         let r = catch(|| bus.process_message(m.clone()).map(|o| o.map(|x| j::msg_from(&j::msg(&x)))).map_err(|e| e.to_string()));
         let s = st.borrow();
         for ev in &s.io_log {
@@ -791,7 +827,8 @@ fn run_session(out: &mut TraceOut, msgs: &[Message<'static>], pattern: &[u8], ta
             let _ = o.remove("t1");
             out.emit(e);
         }
-        out.emit(json!({"e": "pmret", "res": pm_result(&r), "txd": j::bytes(&s.tx), "rxleft": s.rx.len()}));
+        let (line, direct) = direct_reply(tape);
+        out.emit(json!({"e": "pmret", "res": pm_result(&r), "txd": j::bytes(&s.tx), "rxleft": s.rx.len(), "line": line, "direct": direct}));
     }
 }
 
